@@ -355,7 +355,9 @@ def gen_families(rep, tier):
         for i in range(nstream):
             n = rng.choice([1, 2, 3, 3, 4, 5, 6, 8, 12]) if quick or rng.random() < .7 \
                 else rng.randint(0, 30)
-            st = 'float64' if rng.random() < 0.8 else rng.choice(['float32', 'int64', 'int32'])
+            # element dtype: the selection logic does not depend on it (C01 / C13 cover the
+            # subtypes) and every further dtype costs a compilation of each kernel
+            st = 'float64'
             els = U.gen_elements(rng, kind, n)
             child = None
             if rng.random() < 0.35 and n >= 1:
